@@ -15,6 +15,7 @@ mod c08;
 mod c09;
 mod c10;
 mod c11;
+mod c12;
 mod c13;
 mod c14;
 mod c15;
@@ -94,6 +95,7 @@ fn main() {
         "C09" => c09::run(&run),
         "C10" => c10::run(&run),
         "C11" => c11::run(&run),
+        "C12" => c12::run(&run),
         "C13" => c13::run(&run),
         "C14" => c14::run(&run),
         "C15" => c15::run(&run),
